@@ -274,6 +274,9 @@ def _real_run_calls(tier, insts, recs):
     S = corpus.subsample(U, 240 if tier == "quick" else 1500, seed() + 5)
     traces, _ = lifecycle.record(S, want=("sub",))
     n = 0
+    bad = [e["what"] for t in traces for e in t.get("ev", []) if e["e"] == "RecErr"]
+    if bad or any(t.get("hdr") is None for t in traces):
+        raise Machinery(f"the recorder failed while observing solver calls: {bad[:3]}")
     for d, t in zip(S, traces):
         if t.get("hdr") is None:
             continue
